@@ -10,7 +10,7 @@ import string
 import numpy as np
 
 from . import core, probe
-from .dense import (Snap, close, relerr, tt_consistent, shape_sig_cores, shape_tags, dense_b_cores, dense_cores,
+from .dense import (core_scale, Snap, close, relerr, tt_consistent, shape_sig_cores, shape_tags, dense_b_cores, dense_cores,
                     dense_size, MAX_DENSE, mat)
 
 TOL = 1e-9
@@ -154,7 +154,7 @@ class Full(Base):
         if not _std(s):
             return
         D = s.dense()
-        self.ck('value', isinstance(res, np.ndarray) and res.shape == D.shape and close(res, D, TOL), [s],
+        self.ck('value', isinstance(res, np.ndarray) and res.shape == D.shape and close(res, D, TOL, scale=s.floor()), [s],
                 {'relerr': relerr(res, D) if isinstance(res, np.ndarray) else None, 'shape': s.shape_sig()})
 
 
@@ -168,7 +168,7 @@ class Matricize(Base):
         M = mat(s.dense())
         if M.shape[1] == 1:
             M = M.reshape(-1)
-        self.ck('value', isinstance(res, np.ndarray) and res.shape == M.shape and close(res, M, TOL), [s],
+        self.ck('value', isinstance(res, np.ndarray) and res.shape == M.shape and close(res, M, TOL, scale=s.floor()), [s],
                 {'got_shape': getattr(res, 'shape', None), 'want_shape': M.shape, 'shape': s.shape_sig()})
 
 
@@ -182,7 +182,7 @@ class Element(Base):
         idx = args[1] if len(args) > 1 else kwargs.get('indices')
         D = s.dense()
         want = D[tuple(int(i) for i in idx)]
-        self.ck('value', abs(res - want) <= TOL * max(float(np.max(np.abs(D))), 1e-300), [s],
+        self.ck('value', abs(res - want) <= TOL * max(float(np.max(np.abs(D))), s.floor(), 1e-300), [s],
                 {'indices': list(idx), 'got': res, 'want': want, 'shape': s.shape_sig()})
 
 
@@ -203,7 +203,7 @@ class Add(Base):
         if not ok:
             return
         got = _res_dense(res) if res.ranks[0] == 1 and res.ranks[-1] == 1 else None
-        good = got is not None and got.shape == want.shape and close(got, want, TOL, scale=_scale(Da, Db))
+        good = got is not None and got.shape == want.shape and close(got, want, TOL, scale=_scale(Da, Db) + a.floor() + b.floor())
         self.ck('value', good, [a, b], {'relerr': relerr(got, want, _scale(Da, Db)) if got is not None else None,
                                         'a': a.shape_sig(), 'b': b.shape_sig()})
         self.ck('dims', list(res.row_dims) == a.row_dims and list(res.col_dims) == a.col_dims, [a, b])
@@ -226,7 +226,7 @@ class Mul(Base):
         D = s.dense()
         want = scalar * D
         got = _res_dense(res)
-        self.ck('value', got.shape == want.shape and close(got, want, TOL), [s],
+        self.ck('value', got.shape == want.shape and close(got, want, TOL, scale=abs(scalar) * s.floor()), [s],
                 {'scalar': scalar, 'relerr': relerr(got, want), 'shape': s.shape_sig()})
         core.ctx().sig(self.api, s.shape_sig(), type(scalar).__name__)
 
@@ -248,7 +248,7 @@ class MatMul(Base):
         Da, Db = a.dense(), b.dense()
         d = a.order
         want = (mat(Da) @ mat(Db)).reshape(list(a.row_dims) + list(b.col_dims))
-        sc = float(np.linalg.norm(Da)) * float(np.linalg.norm(Db))
+        sc = float(np.linalg.norm(Da)) * float(np.linalg.norm(Db)) + 1e4 * a.floor() * b.floor()
         if all(x == 1 for x in a.row_dims) and all(x == 1 for x in b.col_dims):
             ok = np.ndim(res) == 0 and abs(res - want.reshape(-1)[0]) <= TOL * max(sc, 1e-300)
             self.ck('scalar_value', ok, [a, b], {'got': res if np.ndim(res) == 0 else repr(type(res)), 'want': want.reshape(-1)[0]})
@@ -295,7 +295,7 @@ class Transpose(Base):
         if v['conjugate']:
             want = np.conj(want)
         got = _res_dense(res)
-        self.ck('value', got.shape == want.shape and close(got, want, TOL), [s],
+        self.ck('value', got.shape == want.shape and close(got, want, TOL, scale=s.floor()), [s],
                 {'cores': cores, 'conjugate': bool(v['conjugate']), 'shape': s.shape_sig()})
         core.ctx().sig(self.api, s.shape_sig(), len(set(cores)) == d, bool(v['conjugate']), bool(v['overwrite']))
 
@@ -314,7 +314,7 @@ class Conj(Base):
             return
         want = np.conj(s.dense_b())
         got = dense_b_cores(res.cores)
-        self.ck('value', got.shape == want.shape and close(got, want, TOL), [s], {'shape': s.shape_sig()})
+        self.ck('value', got.shape == want.shape and close(got, want, TOL, scale=s.floor()), [s], {'shape': s.shape_sig()})
         core.ctx().sig(self.api, s.shape_sig())
 
 
@@ -342,7 +342,7 @@ class Norm(Base):
         D = s.dense()
         if p == 2:
             want = float(np.linalg.norm(D.reshape(-1)))
-            self.ck('norm2', abs(res - want) <= 1e-8 * max(want, 1e-300) + 1e-300, [s], {'got': res, 'want': want, 'shape': s.shape_sig()})
+            self.ck('norm2', abs(res - want) <= 1e-8 * max(want, s.floor(), 1e-300), [s], {'got': res, 'want': want, 'shape': s.shape_sig()})
             core.ctx().sig(self.api, 2, s.shape_sig())
         elif p == 1:
             if np.iscomplexobj(D) or np.any(D < 0):
@@ -353,7 +353,7 @@ class Norm(Base):
                 want = float(np.sum(M))
             else:
                 want = float(np.max(np.sum(M, axis=0)))
-            self.ck('norm1', abs(res - want) <= 1e-9 * max(want, 1e-300), [s], {'got': res, 'want': want, 'shape': s.shape_sig()})
+            self.ck('norm1', abs(res - want) <= 1e-9 * max(want, s.floor(), 1e-300), [s], {'got': res, 'want': want, 'shape': s.shape_sig()})
             core.ctx().sig(self.api, 1, s.shape_sig())
 
 
@@ -370,7 +370,7 @@ class ResidualError(Base):
             return
         MA, vx, vb = mat(A.dense()), mat(x.dense()).reshape(-1), mat(b.dense()).reshape(-1)
         want = float(np.linalg.norm(MA @ vx - vb))
-        sc = float(np.linalg.norm(MA)) * float(np.linalg.norm(vx)) + float(np.linalg.norm(vb))
+        sc = float(np.linalg.norm(MA)) * float(np.linalg.norm(vx)) + float(np.linalg.norm(vb)) + 1e4 * A.floor() * x.floor() + b.floor()
         self.ck('value', abs(res - want) <= 1e-8 * max(sc, 1e-300), [A, x, b], {'got': res, 'want': want})
         core.ctx().sig(self.api, A.shape_sig(), x.shape_sig(), b.shape_sig())
 
@@ -499,7 +499,7 @@ class Tensordot(Base):
             return
         k = int(v['num_axes'])
         want = tensordot_oracle(a.dense(), a.order, b.dense(), b.order, k, v['mode'])
-        sc = float(np.linalg.norm(a.dense())) * float(np.linalg.norm(b.dense()))
+        sc = float(np.linalg.norm(a.dense())) * float(np.linalg.norm(b.dense())) + 1e4 * a.floor() * b.floor()
         got = _res_dense(res)
         tags = ['mode=' + v['mode']]
         if k == a.order and k == b.order:
@@ -541,7 +541,7 @@ class RankTensordot(Base):
         else:
             want = np.tensordot(M, Db, axes=([1], [0]))
         got = dense_b_cores(res.cores)
-        sc = float(np.linalg.norm(Db)) * float(np.linalg.norm(M))
+        sc = (float(np.linalg.norm(Db)) + s.floor()) * float(np.linalg.norm(M))
         self.ck('value', got.shape == want.shape and close(got, want, TOL, scale=sc), [s], {'mode': v['mode'], 'matrix_shape': M.shape}, ['mode=' + str(v['mode'])])
         core.ctx().sig(self.api, v['mode'], s.shape_sig(), M.shape, bool(v['overwrite']))
 
@@ -574,7 +574,7 @@ class Concatenate(Base):
             return
         want = dense_b_cores(list(s.cores) + list(oc))
         got = dense_b_cores(res.cores)
-        self.ck('value', got.shape == want.shape and close(got, want, TOL), [s], {'shape': s.shape_sig(), 'list': 'other_cores' in st})
+        self.ck('value', got.shape == want.shape and close(got, want, TOL, scale=1e-4 * core_scale(list(s.cores) + list(oc))), [s], {'shape': s.shape_sig(), 'list': 'other_cores' in st})
         self.ck('dims', list(res.row_dims) == s.row_dims + [x.shape[1] for x in oc] and list(res.col_dims) == s.col_dims + [x.shape[2] for x in oc], [s])
         core.ctx().sig(self.api, s.shape_sig(), shape_sig_cores(oc), 'other_cores' in st, self.is_inplace(args, kwargs))
 
@@ -596,7 +596,7 @@ class RankTranspose(Base):
         perm = [2 * d + 1] + [d - i for i in range(d)] + [2 * d - i for i in range(d)] + [0]
         want = np.transpose(Db, perm)
         got = dense_b_cores(res.cores)
-        self.ck('value', got.shape == want.shape and close(got, want, TOL), [s], {'shape': s.shape_sig()})
+        self.ck('value', got.shape == want.shape and close(got, want, TOL, scale=s.floor()), [s], {'shape': s.shape_sig()})
         self.ck('dims', list(res.row_dims) == s.row_dims[::-1] and list(res.col_dims) == s.col_dims[::-1] and list(res.ranks) == s.ranks[::-1], [s])
         core.ctx().sig(self.api, s.shape_sig(), self.is_inplace(args, kwargs))
 
@@ -628,7 +628,7 @@ class Diag(Base):
                 j[d + i] = idx[i]
             want[tuple(j)] = D[idx]
         got = _res_dense(res)
-        self.ck('value', got.shape == want.shape and close(got, want, TOL), [s], {'diag_list': lst, 'shape': s.shape_sig()})
+        self.ck('value', got.shape == want.shape and close(got, want, TOL, scale=s.floor()), [s], {'diag_list': lst, 'shape': s.shape_sig()})
         core.ctx().sig(self.api, s.shape_sig(), lst)
 
 
@@ -649,7 +649,7 @@ class Squeeze(Base):
         got = _res_dense(res)
         pos = 'none' if len(keep) == d else '+'.join(sorted(set(('leading' if i < keep[0] else 'trailing' if i > keep[-1] else 'inner')
                                                                    for i in range(d) if i not in keep)))
-        self.ck('value', got.shape == want.shape and close(got, want, TOL), [s], {'shape': s.shape_sig(), 'removed': pos}, ['removed=' + pos])
+        self.ck('value', got.shape == want.shape and close(got, want, TOL, scale=s.floor()), [s], {'shape': s.shape_sig(), 'removed': pos}, ['removed=' + pos])
         self.ck('dims', list(res.row_dims) == [s.row_dims[i] for i in keep] and list(res.col_dims) == [s.col_dims[i] for i in keep], [s])
         core.ctx().sig(self.api, s.shape_sig(), pos)
 
@@ -687,7 +687,7 @@ class TT2QTT(Base):
             return
         want = _split_axes(s.dense(), s.order, rf, cf)
         got = _res_dense(res)
-        self.ck('value', got.shape == want.shape and close(got, want, TOL), [s], {'row': rf, 'col': cf, 'shape': s.shape_sig()})
+        self.ck('value', got.shape == want.shape and close(got, want, TOL, scale=s.floor()), [s], {'row': rf, 'col': cf, 'shape': s.shape_sig()})
         core.ctx().sig(self.api, s.shape_sig(), rf, cf)
 
 
@@ -708,7 +708,7 @@ class QTT2TT(Base):
         want = s.dense().reshape(rows + cols)
         got = _res_dense(res)
         self.ck('dims', list(res.row_dims) == rows and list(res.col_dims) == cols, [s])
-        self.ck('value', got.shape == want.shape and close(got, want, TOL), [s], {'merge': mn, 'shape': s.shape_sig()})
+        self.ck('value', got.shape == want.shape and close(got, want, TOL, scale=s.floor()), [s], {'merge': mn, 'shape': s.shape_sig()})
         core.ctx().sig(self.api, s.shape_sig(), mn)
 
 
@@ -814,7 +814,7 @@ class OrthoBase(Base):
         sc = float(np.max(np.abs(Dold))) if Dold.size else 0.0
         sig = [self.api, s.shape_sig(), exact, v.get('range')]
         if exact:
-            self.ck('value_preserved', Dnew.shape == Dold.shape and close(Dnew, Dold, 1e-9), [s],
+            self.ck('value_preserved', Dnew.shape == Dold.shape and close(Dnew, Dold, 1e-9, scale=s.floor()), [s],
                     {'relerr': relerr(Dnew, Dold), 'shape': s.shape_sig(), 'range': v.get('range')}, tags)
             self.ck('ranks_not_increased', all(a <= b for a, b in zip(t.ranks, s.ranks)), [s], {'old': s.ranks, 'new': list(t.ranks)}, tags)
             for (i, sd) in v['processed']:
@@ -839,7 +839,7 @@ class OrthoBase(Base):
                     bound2 += float(np.sum(sv[k - 1][r:] ** 2))
                 err = float(np.linalg.norm((Dnew - Dold).reshape(-1)))
                 nrm = float(np.linalg.norm(Dold.reshape(-1)))
-                self.ck('quasi_optimal_error', err <= (1 + 1e-8) * np.sqrt(bound2) + 1e-10 * nrm, [s],
+                self.ck('quasi_optimal_error', err <= (1 + 1e-8) * np.sqrt(bound2) + 1e-10 * nrm + 1e-9 * s.floor(), [s],
                         {'err': err, 'bound': float(np.sqrt(bound2)), 'ranks': list(t.ranks), 'old_ranks': s.ranks}, tags, prop='C04')
                 sig.append('qo')
             sig.append(['thr' if thr else 'nothr', 'list' if isinstance(mr, list) else ('inf' if mr == np.inf else int(mr))])
@@ -1016,6 +1016,9 @@ class SVD(Base):
         self.ck('v_orthonormal_rows', float(np.max(np.abs(W @ W.conj().T - np.eye(r)))) <= 1e-9, [s], None, tags)
         strue = np.linalg.svd(A, compute_uv=False)
         s0 = strue[0] if strue.size and strue[0] > 0 else 1.0
+        if s0 <= 1e-6 * s.floor():
+            core.ctx().skip('svd_numerically_zero_tensor')
+            return
         thr, mr = v['threshold'], v['max_rank']
         # which clauses are decidable: no cut at all, or a relative cut that falls into a clear gap of every
         # unfolding spectrum (rank-deficient data with a threshold well below the non-zero part)
@@ -1074,6 +1077,9 @@ class Pinv(Base):
         A = s.dense().reshape(int(np.prod(s.row_dims[:idx])), int(np.prod(s.row_dims[idx:])))
         strue = np.linalg.svd(A, compute_uv=False)
         s0 = strue[0] if strue.size and strue[0] > 0 else 1.0
+        if s0 <= 1e-6 * s.floor():
+            core.ctx().skip('pinv_numerically_zero_tensor')
+            return
         thr = v['threshold']
         rel = strue / s0
         allsv = unfolding_svals(s.dense_b(), d) if d > 1 else []
